@@ -83,10 +83,12 @@ class SBytes:
         if encoding.lower().replace("_", "-") not in ("utf-8", "utf8", "ascii"):
             raise explore.Inconclusive("SBytes.decode(%r) not modelled" % encoding)
         small = conj(_t(x < 128) for x in self.o)
-        if small.__class__ is Bit:
-            if not explore.decide(small):
-                raise explore.Inconclusive("decoding symbolic non-ASCII UTF-8 is not modelled")
-        elif not small:
+        is_ascii = encoding.lower() == "ascii"
+        ok = explore.decide(small) if small.__class__ is Bit else bool(small)
+        if not ok:
+            if is_ascii and errors == "strict":
+                # exact: the ascii codec rejects every octet >= 0x80
+                raise UnicodeDecodeError("ascii", b"\x80", 0, 1, "ordinal not in range(128)")
             raise explore.Inconclusive("decoding symbolic non-ASCII UTF-8 is not modelled")
         return SStr(list(self.o))
 
